@@ -18,8 +18,11 @@
 //	os.Exit(n)                  -> vrt.Exit(n)
 //
 //	close(ch)                   -> ch.Close()
-// What it cannot model: select is reported by the tool (exit 2 with file:line); a range over a channel,
-// a comma-ok receive and len/cap of a channel make the instrumented build fail. In both cases the calling check
+//	v, ok := <-ch               -> v, ok := ch.RecvOk()
+//	for v := range ch {..}      -> for { v, ok := ch.RecvOk(); if !ok { break }; .. }   (ch declared with a channel type in the file)
+//
+// What it cannot model: select is reported by the tool (exit 2 with file:line); len/cap of a channel
+// and a range over a channel whose declaration is not in the same file make the instrumented build fail. In both cases the calling check
 // reports that it cannot instrument this tree (see scripts/sched_build.sh).
 package main
 
@@ -58,6 +61,7 @@ type rewriter struct {
 	usedVrt          bool
 	timeUsed, osUsed bool
 	tmp              int
+	chans            map[string]bool // names declared with a channel type anywhere in the file (for `range ch`)
 	counts           map[string]int
 }
 
@@ -168,6 +172,41 @@ func (r *rewriter) stmt(s ast.Stmt) ast.Stmt {
 		return &ast.ExprStmt{X: &ast.CallExpr{Fun: &ast.SelectorExpr{X: x.Chan, Sel: ast.NewIdent("Send")}, Args: []ast.Expr{x.Value}}}
 	case *ast.SelectStmt:
 		fail(x.Pos(), "select")
+	case *ast.AssignStmt:
+		// v, ok := <-ch  (the receive has been rewritten to ch.Recv() already)
+		if len(x.Lhs) == 2 && len(x.Rhs) == 1 {
+			if call, ok := x.Rhs[0].(*ast.CallExpr); ok && len(call.Args) == 0 {
+				if se, ok := call.Fun.(*ast.SelectorExpr); ok && se.Sel.Name == "Recv" {
+					se.Sel = ast.NewIdent("RecvOk")
+					r.counts["recv-ok"]++
+				}
+			}
+		}
+	case *ast.RangeStmt:
+		// for v := range ch  ->  for { v, ok := ch.RecvOk(); if !ok { break }; body }   (ch known to be a channel)
+		if id, ok := x.X.(*ast.Ident); ok && r.chans[id.Name] && x.Value == nil {
+			r.tmp++
+			okName := fmt.Sprintf("vrtOk%d", r.tmp)
+			var key ast.Expr = ast.NewIdent("_")
+			tok := token.DEFINE
+			if x.Key != nil {
+				key = x.Key
+				tok = x.Tok
+				if tok == token.ASSIGN { // the loop variable exists already: ok must be declared separately
+					tok = token.DEFINE
+					key = ast.NewIdent(fmt.Sprintf("vrtV%d", r.tmp))
+				}
+			}
+			recv := &ast.AssignStmt{Lhs: []ast.Expr{key, ast.NewIdent(okName)}, Tok: tok, Rhs: []ast.Expr{&ast.CallExpr{Fun: &ast.SelectorExpr{X: x.X, Sel: ast.NewIdent("RecvOk")}}}}
+			stop := &ast.IfStmt{Cond: &ast.UnaryExpr{Op: token.NOT, X: ast.NewIdent(okName)}, Body: &ast.BlockStmt{List: []ast.Stmt{&ast.BranchStmt{Tok: token.BREAK}}}}
+			body := []ast.Stmt{recv, stop}
+			if x.Key != nil && x.Tok == token.ASSIGN {
+				body = append(body, &ast.AssignStmt{Lhs: []ast.Expr{x.Key}, Tok: token.ASSIGN, Rhs: []ast.Expr{ast.NewIdent(fmt.Sprintf("vrtV%d", r.tmp))}})
+			}
+			body = append(body, x.Body.List...)
+			r.counts["range-chan"]++
+			return &ast.ForStmt{Body: &ast.BlockStmt{List: body}}
+		}
 	}
 	// (a range over a channel, a comma-ok receive and len/cap of a channel do not compile against *vrt.Chan: the
 	// instrumented build fails and the check reports that it cannot instrument this tree)
@@ -227,6 +266,42 @@ func (r *rewriter) slot(f reflect.Value) {
 }
 
 func (r *rewriter) file(f *ast.File) {
+	r.chans = map[string]bool{}
+	isChanMake := func(e ast.Expr) bool {
+		call, ok := e.(*ast.CallExpr)
+		if !ok || len(call.Args) == 0 {
+			return false
+		}
+		id, ok := call.Fun.(*ast.Ident)
+		_, isChan := call.Args[0].(*ast.ChanType)
+		return ok && id.Name == "make" && isChan
+	}
+	ast.Inspect(f, func(n ast.Node) bool {
+		switch x := n.(type) {
+		case *ast.AssignStmt:
+			for i, rhs := range x.Rhs {
+				if i < len(x.Lhs) && isChanMake(rhs) {
+					if id, ok := x.Lhs[i].(*ast.Ident); ok {
+						r.chans[id.Name] = true
+					}
+				}
+			}
+		case *ast.ValueSpec:
+			_, typed := x.Type.(*ast.ChanType)
+			for i, nm := range x.Names {
+				if typed || (i < len(x.Values) && isChanMake(x.Values[i])) {
+					r.chans[nm.Name] = true
+				}
+			}
+		case *ast.Field:
+			if _, ok := x.Type.(*ast.ChanType); ok {
+				for _, nm := range x.Names {
+					r.chans[nm.Name] = true
+				}
+			}
+		}
+		return true
+	})
 	r.walk(reflect.ValueOf(f))
 	for _, imp := range f.Imports {
 		if imp.Path.Value == `"sync"` {
@@ -243,6 +318,7 @@ func main() {
 	flag.Var(&adds, "add", "pkgdir=file.go: add a file to a package directory through the overlay")
 	flag.Var(&probes, "probe", "Func:N  insert vrt.Probe(\"Func\", <Nth int parameter>, 0) at entry and a deferred Func.exit probe")
 	renameMain := flag.String("rename-main", "", "rename func main() to this name")
+	skipUnchanged := flag.Bool("skip-unchanged", false, "leave files in which nothing was rewritten out of the overlay")
 	flag.Parse()
 	if *out == "" {
 		fmt.Fprintln(os.Stderr, "usage: rewrite -out DIR [-add pkgdir=file] files...")
@@ -297,6 +373,13 @@ func main() {
 				r.counts["probe"]++
 			}
 		}
+		changed := 0
+		for _, v := range r.counts {
+			changed += v
+		}
+		if *skipUnchanged && changed == 0 && !(*renameMain != "" && strings.Contains(string(src), "func main()")) {
+			continue
+		}
 		var buf bytes.Buffer
 		// drop comments: positions of rewritten nodes would otherwise scramble them
 		f.Comments = nil
@@ -305,9 +388,23 @@ func main() {
 			os.Exit(2)
 		}
 		text := buf.String()
-		if r.usedVrt && !strings.Contains(text, "//go:build") {
-			// the rewritten file may use a generic channel type; the repository's go.mod still says go 1.12, and a
-			// go1.N build line raises the language version for this one file
+		// comments were dropped: put a build constraint of the original file back, and raise the language version of the
+		// rewritten file (it may use a generic channel type; the repository's go.mod still says go 1.12)
+		constraint := ""
+		for _, line := range strings.Split(string(src), "\n") {
+			if strings.HasPrefix(line, "package ") {
+				break
+			}
+			if strings.HasPrefix(line, "//go:build ") {
+				constraint = strings.TrimSpace(strings.TrimPrefix(line, "//go:build "))
+			}
+		}
+		switch {
+		case constraint != "" && r.usedVrt:
+			text = "//go:build (" + constraint + ") && go1.18\n\n" + text
+		case constraint != "":
+			text = "//go:build " + constraint + "\n\n" + text
+		case r.usedVrt:
 			text = "//go:build go1.18\n\n" + text
 		}
 		if r.usedVrt {
@@ -349,5 +446,6 @@ func main() {
 	b, _ := json.MarshalIndent(map[string]interface{}{"Replace": overlay}, "", " ")
 	os.WriteFile(filepath.Join(*out, "overlay.json"), b, 0644)
 	sum, _ := json.Marshal(total)
+	os.WriteFile(filepath.Join(*out, "summary.json"), sum, 0644)
 	fmt.Printf("rewrite: %d files, %s\n", len(flag.Args()), sum)
 }
